@@ -5,7 +5,7 @@ IDS=${@:-C01 C02 C03 C04 C05 C06 C07 C09 C10 C11 C12 C13 C14 C15 C16 C17 C18 C19
 mkdir -p /verif/.build/runall
 for id in $IDS; do
   T0=$(date +%s)
-  /verif/check $id --tier $TIER > /verif/.build/runall/$id-$TIER.log 2>&1
+  ${RUNALL_TIMEOUT:+timeout $RUNALL_TIMEOUT} /verif/check $id --tier $TIER > /verif/.build/runall/$id-$TIER.log 2>&1
   RC=$?
   T1=$(date +%s)
   echo "$id $TIER exit=$RC wall=$((T1-T0))s $(grep -c '^VIOLATION' /verif/.build/runall/$id-$TIER.log) violations; $(grep -c 'INCONCLUSIVE' /verif/.build/runall/$id-$TIER.log) inconclusive" | tee -a /verif/.build/runall/summary-$TIER.txt
